@@ -78,7 +78,8 @@ func libPanicSites(f *ssa.Function, x *ssa.Call, posStr string) []*panicSite {
 	for _, a := range x.Call.Args {
 		as = append(as, trimStr(apath(a), 40))
 	}
-	s := &panicSite{class: "library-panic", fn: fname(f), expr: name + "(" + strings.Join(as, ",") + ")", pos: x.Pos(), posStr: posStr,
+	_ = as
+	s := &panicSite{class: "library-panic", fn: fname(f), expr: name, pos: x.Pos(), posStr: posStr,
 		detail: fmt.Sprintf("%s contains an explicit panic for some arguments; called from %s", name, fname(f))}
 	return []*panicSite{s}
 }
